@@ -100,26 +100,32 @@ theorem set_append_at_length (pre : List Nat) (x y : Nat) (xs : List Nat) :
   | nil => rfl
   | cons a pre ih => simp [ih]
 
+/-- entries the criterion drops are exactly `+0.0` -/
+def DroppedAreZero (keep : Nat → Bool) (v : List Nat) : Prop := ∀ b ∈ v, keep b = true ∨ b = 0
+instance (keep : Nat → Bool) (v : List Nat) : Decidable (DroppedAreZero keep v) := by
+  unfold DroppedAreZero; infer_instance
+
 /-- entries that are not "big" are exactly `+0.0` -/
-def SmallAreZero (v : List Nat) : Prop := ∀ b ∈ v, isBig b = true ∨ b = 0
+def SmallAreZero (v : List Nat) : Prop := DroppedAreZero isBig v
 instance (v : List Nat) : Decidable (SmallAreZero v) := by unfold SmallAreZero; infer_instance
 
-theorem scatter_sparse (v : List Nat) : ∀ (pre : List Nat),
-    SmallAreZero v → pre.length + v.length ≤ U32 →
-    scatter (pre ++ List.replicate v.length 0) (sparsePositions pre.length v) (sparseValues pre.length v)
+theorem scatter_sparse_by (keep : Nat → Bool) (v : List Nat) : ∀ (pre : List Nat),
+    DroppedAreZero keep v → pre.length + v.length ≤ U32 →
+    scatter (pre ++ List.replicate v.length 0) (sparsePositionsBy keep pre.length v)
+        (sparseValuesBy keep pre.length v)
       = pre ++ v := by
   induction v with
-  | nil => intro pre _ _; simp [sparsePositions, sparseValues, scatter]
+  | nil => intro pre _ _; simp [sparsePositionsBy, sparseValuesBy, scatter]
   | cons b bs ih =>
     intro pre hz hlen
-    have hz' : SmallAreZero bs := fun x hx => hz x (List.mem_cons_of_mem _ hx)
+    have hz' : DroppedAreZero keep bs := fun x hx => hz x (List.mem_cons_of_mem _ hx)
     have hlt : pre.length < U32 := by simp at hlen; omega
     have hpre : (pre ++ [b]).length = pre.length + 1 := by simp
     have hlen' : (pre ++ [b]).length + bs.length ≤ U32 := by simp at hlen ⊢; omega
     have ihb := ih (pre ++ [b]) hz' hlen'
     rw [hpre] at ihb
-    simp only [List.length_cons, List.replicate_succ, sparsePositions, sparseValues]
-    cases hb : isBig b with
+    simp only [List.length_cons, List.replicate_succ, sparsePositionsBy, sparseValuesBy]
+    cases hb : keep b with
     | true =>
       simp only [hlt, decide_true, Bool.and_self, if_true, scatter]
       rw [set_append_at_length]
@@ -134,5 +140,18 @@ theorem scatter_sparse (v : List Nat) : ∀ (pre : List Nat),
       have : pre ++ 0 :: List.replicate bs.length 0 = (pre ++ [b]) ++ List.replicate bs.length 0 := by
         simp [hb0]
       rw [this, ihb]; simp
+
+theorem scatter_sparse (v : List Nat) (pre : List Nat)
+    (hz : SmallAreZero v) (hlen : pre.length + v.length ≤ U32) :
+    scatter (pre ++ List.replicate v.length 0) (sparsePositions pre.length v) (sparseValues pre.length v)
+      = pre ++ v :=
+  scatter_sparse_by isBig v pre hz hlen
+
+/-- the fixed criterion drops nothing but `+0.0` -/
+theorem droppedAreZero_notPlusZero (v : List Nat) : DroppedAreZero notPlusZero v := by
+  intro b _
+  by_cases h : b = 0
+  · exact .inr h
+  · left; simp [notPlusZero, h]
 
 end Neumann.Snap
